@@ -14,7 +14,11 @@ Inductive value : Type :=
 | JDouble (text : list Z)     (* outside the property; the scanned text is kept opaque *)
 | JString (s : list Z)
 | JList (l : list value)
-| JMap (m : list (list Z * value)).   (* insertion ordered, keys unique (HashMap) *)
+| JMap (m : list (list Z * value))    (* insertion ordered, keys unique (HashMap) *)
+(* the remaining Variant types: outside the class of the property, but Json::toString writes them *)
+| JUInt (z : Z)               (* Variant uintType   (32 bit unsigned) *)
+| JUInt64 (z : Z)             (* Variant uint64Type (64 bit unsigned) *)
+| JArray (l : list value).    (* Variant arrayType  (Array<Variant>) *)
 
 Fixpoint bytes_eqb (a b : list Z) : bool :=
   match a, b with
@@ -23,19 +27,27 @@ Fixpoint bytes_eqb (a b : list Z) : bool :=
   | _, _ => false
   end.
 
-(* equality of trees: integers compare by value whatever their width, everything else
-   structurally, maps in insertion order (HashMap::operator==) *)
+(* equality of trees: integers compare by value whatever their width and signedness, everything else
+   structurally, maps in insertion order (HashMap::operator==); an array is not equal to a list
+   (Variant::operator== compares the type of containers first) *)
+Definition int_of (v : value) : option Z :=
+  match v with JInt z | JInt64 z | JUInt z | JUInt64 z => Some z | _ => None end.
 Fixpoint value_eq (a b : value) : bool :=
   match a, b with
   | JNull, JNull => true
   | JBool x, JBool y => Bool.eqb x y
-  | JInt x, JInt y => x =? y
-  | JInt x, JInt64 y => x =? y
-  | JInt64 x, JInt y => x =? y
-  | JInt64 x, JInt64 y => x =? y
+  | JInt x, _ | JInt64 x, _ | JUInt x, _ | JUInt64 x, _ =>
+    match int_of b with Some y => x =? y | None => false end
   | JDouble x, JDouble y => bytes_eqb x y
   | JString x, JString y => bytes_eqb x y
   | JList x, JList y =>
+    (fix go (x y : list value) : bool :=
+       match x, y with
+       | [], [] => true
+       | a :: x', b :: y' => value_eq a b && go x' y'
+       | _, _ => false
+       end) x y
+  | JArray x, JArray y =>
     (fix go (x y : list value) : bool :=
        match x, y with
        | [], [] => true
@@ -75,6 +87,7 @@ Fixpoint in_class (v : value) : bool :=
        | [] => true
        | (k, x) :: t => str_ok k && in_class x && negb (key_in k t) && go t
        end) m
+  | JUInt _ | JUInt64 _ | JArray _ => false
   end.
 
 (* the representative of a tree that a parser yields: a 64-bit integer that fits 32 bits is a 32-bit
@@ -85,6 +98,45 @@ Fixpoint canon (v : value) : value :=
   | JInt64 z => if fits32 z then JInt z else JInt64 z
   | JList l => JList (map canon l)
   | JMap m => JMap (map (fun kx => (fst kx, canon (snd kx))) m)
+  | JArray l => JArray (map canon l)
+  | _ => v
+  end.
+
+(* ---- extension beyond the class of the property: what Json::toString followed by Json::parse does to
+        the Variant types the property does not name (unsigned integers, arrays).  The parser knows no
+        unsigned type and no array type: a number is read by atoll (saturating at the int64 bounds) and
+        stored as int when it fits 32 bits, else as int64; a bracketed sequence is stored as a list. ---- *)
+Fixpoint in_ext (v : value) : bool :=
+  match v with
+  | JNull => true
+  | JBool _ => true
+  | JInt z => (-2147483648 <=? z) && (z <=? 2147483647)
+  | JInt64 z => (-9223372036854775808 <=? z) && (z <=? 9223372036854775807)
+  | JDouble _ => false
+  | JString s => str_ok s
+  | JList l => (fix go (l : list value) : bool := match l with [] => true | x :: t => in_ext x && go t end) l
+  | JMap m =>
+    (fix go (m : list (list Z * value)) : bool :=
+       match m with
+       | [] => true
+       | (k, x) :: t => str_ok k && in_ext x && negb (key_in k t) && go t
+       end) m
+  | JUInt z => (0 <=? z) && (z <=? 4294967295)
+  | JUInt64 z => (0 <=? z) && (z <=? 18446744073709551615)
+  | JArray l => (fix go (l : list value) : bool := match l with [] => true | x :: t => in_ext x && go t end) l
+  end.
+
+Definition sat63 (z : Z) : Z := if 9223372036854775807 <? z then 9223372036854775807 else z.
+Definition narrow (z : Z) : value := if fits32 z then JInt z else JInt64 z.
+(* the tree that comes back *)
+Fixpoint readback (v : value) : value :=
+  match v with
+  | JInt64 z => narrow z
+  | JUInt z => narrow z                    (* below 2^31: int, else int64; equal by value *)
+  | JUInt64 z => narrow (sat63 z)          (* 2^63 and above: int64 9223372036854775807 - NOT equal by value *)
+  | JList l => JList (map readback l)
+  | JArray l => JList (map readback l)     (* a list, which Variant::operator== does not call equal to an array *)
+  | JMap m => JMap (map (fun kx => (fst kx, readback (snd kx))) m)
   | _ => v
   end.
 
